@@ -209,3 +209,19 @@ End Queries.
 Arguments q_dim {point} _.
 Arguments q_edges {point} _.
 Arguments mkQShape {point} _ _.
+
+(** * Support for the correspondence files: geometric predicates given as tables of the values the
+      implementation's predicates returned for (centre, p, v0, v1), keyed by (v0, v1) *)
+Fixpoint tab_lookup {A} (t : list ((Z * Z) * A)) (c d : Z) (dflt : A) : A :=
+  match t with
+  | [] => dflt
+  | ((c', d'), v) :: r => if (c =? c') && (d =? d') then v else tab_lookup r c d dflt
+  end.
+Definition tab_sign (t : list ((Z * Z) * crossing)) (a b c d : Z) : crossing := tab_lookup t c d DoNotCross.
+Definition tab_vc (t : list ((Z * Z) * bool)) (a b c d : Z) : bool := tab_lookup t c d false.
+Definition relation_eqb (x y : cell_relation) : bool :=
+  match x, y with
+  | Indexed a, Indexed b | Subdivided a, Subdivided b => a =? b
+  | Disjoint, Disjoint => true
+  | _, _ => false
+  end.
